@@ -52,6 +52,15 @@ CHECKS = {
          "property's own quantifier. The thorough tier adds an Apalache (SMT) proof of the order lemmas over unbounded integers.",
     technique="TLA+ spec (Events.tla) model-checked with TLC (+ Apalache over unbounded Int); every enumerated placement replayed into verif.interval / verif.util",
     ref="6/C07"),
+ "C08": dict(
+    text="Metrics.tla defines the Brier family (10 bins, top edge inclusive), binary ignorance, spherical score, marginal ratio, quantile "
+         "(pinball) score, quantile coverage, spread, spread-skill ratio and the PIT histogram statistics as exact rationals / expression "
+         "trees, the event probability through Events!ProbOfEvent, and ensemble-derived probabilities/quantiles (the latter as an envelope); "
+         "TLC checks BS = REL - RES + UNC (one value per bin), BS(event) = BS(complement), ranges and monotonicity; Brier scores are "
+         "replayed through compute_from_obs_fcst and everything else end to end through generated text files with p<t>/q<l>/e<k>/pit "
+         "columns, verif.data.Data and Metric.compute_single for all 8 bin types.",
+    technique="TLA+ spec (Metrics.tla probabilistic part, Events.tla) model-checked with TLC; generated probability/quantile/ensemble/PIT cases replayed through files into verif.data + verif.metric",
+    ref="6/C08"),
  "C05": dict(
     text="Metrics.tla transcribes the textbook definition of 22 deterministic scores (and Aggregators.tla the 14 -agg statistics plus "
          "quantile levels) as expression trees over exact rationals, with explicit undefined cases; TLC enumerates every obs/fcst vector "
